@@ -112,3 +112,11 @@ Example C20_abort_nonvacuous :
   fst (cutl p) = [SCtx [97] [([120], Some [34;60])] [SLeaf [98] [] (Some [38]); SCtx [99] [] [SLeaf [100] [] None]]] /\
   xml_parse (fst (run_program p)) = Some (layout_doc (fst (cutl p))).
 Proof. cbv zeta. repeat split; vm_compute; reflexivity. Qed.
+
+(* lossless: two programs that make the writer return the same bytes describe the same document *)
+Theorem C20_lossless : forall l1 l2,
+  forallb pure l1 = true -> Forall wf l1 -> forallb data_ok l1 = true ->
+  forallb pure l2 = true -> Forall wf l2 -> forallb data_ok l2 = true ->
+  fst (run_program l1) = fst (run_program l2) -> flat_map doc_of l1 = flat_map doc_of l2.
+Proof. exact same_bytes_same_document. Qed.
+Print Assumptions C20_lossless.
